@@ -96,7 +96,7 @@ theorem C05_host_value (n : Net) (s : State) (a : Action) (u : Rat) (hwf : WF s)
     simp only [hns, Bool.false_eq_true, if_false]
     revert hsucc
     unfold hostRow hostPerform gain raiseAccess
-    obtain ⟨hg1, hg2⟩ := hg
+    obtain ⟨hg1, hg2⟩ := hg hk
     rcases hk with h | h <;> simp only [h] <;> simp
     all_goals repeat' split
     all_goals simp_all
